@@ -256,7 +256,7 @@ def check(case):
         cA8 = vs.calculator(setup, NGFmax=8)[3]
         cB8 = OnsagerCalc.VacancyMediated(B, chem, slB, jnB, 1, NGFmax=8)
         e8 = compare(cA8, cB8)[0]
-        require(e8 <= max(2e-6, 0.5 * e), lambda: "vacancy-mediated coefficients differ between equivalent descriptions (%s) by %.3e (relative; %.3e with refined k-meshes): Lss %s vs %s"
+        require(e8 <= max(2e-6, vs.SHRINK * e), lambda: "vacancy-mediated coefficients differ between equivalent descriptions (%s) by %.3e (relative; %.3e with refined k-meshes): Lss %s vs %s"
                 % (mode, e, e8, np.asarray(LAs[1]).tolist(), np.asarray(LBs[1]).tolist()))
         classes.append("integration_limited")
     return {"nontrivial": bool(nt), "classes": classes + vs.describe(calcA, data),
